@@ -86,6 +86,7 @@ func (state *RuntimeState) GenerateNewTOTP(w http.ResponseWriter, r *http.Reques
 
 	// TODO: check for method, we should only allow POST requests
 
+	defer state.lockUserProfile(authData.Username)()
 	profile, _, fromCache, err := state.LoadUserProfile(authData.Username)
 	if err != nil {
 		logger.Printf("loading profile error: %v", err)
@@ -162,6 +163,7 @@ func (state *RuntimeState) validateNewTOTP(w http.ResponseWriter, r *http.Reques
 		return
 	}
 	OTPString := fmt.Sprintf("%06d", otpValue)
+	defer state.lockUserProfile(authUser)()
 	profile, _, fromCache, err := state.LoadUserProfile(authUser)
 	if err != nil {
 		logger.Printf("loading profile error: %v", err)
@@ -288,6 +290,7 @@ func (state *RuntimeState) totpTokenManagerHandler(w http.ResponseWriter,
 	}
 
 	//Do a redirect
+	defer state.lockUserProfile(assumedUser)()
 	profile, _, fromCache, err := state.LoadUserProfile(assumedUser)
 	if err != nil {
 		logger.Printf("loading profile error: %v", err)
@@ -377,7 +380,9 @@ func matchTOTPCounter(OTPString string, secret string, counter int64, period int
 // for this user is NOT on this period AND one of the otp values matches the one of the user's
 // registered keys.
 func (state *RuntimeState) validateUserTOTP(username string, OTPValue int, t time.Time) (bool, error) {
-	//Do a redirect
+	// The whole load, check, record sequence is per user: an OTP value is
+	// good only once
+	defer state.lockUserProfile(username)()
 	profile, _, fromCache, err := state.LoadUserProfile(username)
 	if err != nil {
 		logger.Printf("validateUserTOTP: loading profile error: %v", err)
